@@ -3,6 +3,7 @@ package checks
 import (
 	"fmt"
 	"sort"
+	"strconv"
 	"strings"
 	"sync/atomic"
 	"unicode/utf8"
@@ -76,6 +77,10 @@ func accepts(ref model.Ref, printed string) bool {
 		if a.Print() == printed {
 			return true
 		}
+		// beyond 1e15 the rule "prints as the equal literal" is not pinned down: either form
+		if a.K == model.KFloat && (a.F >= 1e15 || a.F <= -1e15) && strconv.FormatFloat(a.F, 'f', 1, 64) == printed {
+			return true
+		}
 	}
 	if ref.Member != nil {
 		if len(ref.Member.A) == 0 {
@@ -95,6 +100,16 @@ func accepts(ref model.Ref, printed string) bool {
 		got := strings.Split(printed, ", ")
 		if printed == "" && len(want) == 0 {
 			return true
+		}
+		for _, w := range want {
+			if w == "" || strings.Contains(w, ", ") {
+				// elements whose text is empty or holds the separator cannot be told
+				// apart in the printed array: compare the bytes as a multiset
+				a, b := []byte(printed), []byte(ref.Perm.Print())
+				sort.Slice(a, func(i, j int) bool { return a[i] < a[j] })
+				sort.Slice(b, func(i, j int) bool { return b[i] < b[j] })
+				return string(a) == string(b)
+			}
 		}
 		sort.Strings(want)
 		sort.Strings(got)
